@@ -32,12 +32,8 @@ func init() {
 					return
 				}
 				u := FuncUnit{fn, fd, pkg}
-				found := false
-				for _, ce := range callsIn(fd.Body, false) {
-					if originOf(Callee(pkg.TypesInfo, ce)) == callee {
-						found = true
-					}
-				}
+				// directly or through helpers of the package (a one-line forwarder may come and go)
+				found := c.staticReach(func(p string) bool { return rel(p) == jsonPkg }, callee)[fn]
 				if found {
 					obs = append(obs, mkOb(c, "JSON.single-acceptance", u, what, fd, Proved, "calls "+FuncName(callee), false))
 				} else {
@@ -45,11 +41,10 @@ func init() {
 				}
 			}
 			must(jsonPkg+".(*encoder).checkLoadable", jd, "encoder validates with the decoder's acceptance function")
-			must(jsonPkg+".(*Serializer).jsonDecode", jd, "serializer decode is the package function")
-			sj := c.LookupMethod(jsonPkg + ".Serializer.jsonDecode")
-			if sj != nil {
-				must(jsonPkg+".(*Serializer).jsonDecodeOpts", sj, "default / string-numbers paths")
+			if sj := c.LookupMethod(jsonPkg + ".Serializer.jsonDecode"); sj != nil {
+				must(jsonPkg+".(*Serializer).jsonDecode", jd, "serializer decode is the package function")
 			}
+			must(jsonPkg+".(*Serializer).jsonDecodeOpts", jd, "default / string-numbers paths")
 			must(jsonPkg+".(*Serializer).jsonDecodeOpts", de, "exact-integers path")
 			// no other json.Unmarshal / NewDecoder users in the package besides the two acceptance functions
 			for _, u := range c.Funcs(func(p string) bool { return rel(p) == jsonPkg }) {
@@ -142,6 +137,15 @@ func init() {
 						if stdFuncCalled(info, x, "errors", "As") && len(x.Args) == 2 {
 							if tv, ok := info.Types[x.Args[1]]; ok {
 								targets[tv.Type.String()] = true
+								// the package's own malformed-document error type, whatever it is called:
+								// a named type declared here that implements error
+								if pt, ok := tv.Type.Underlying().(*types.Pointer); ok {
+									if nt, ok := types.Unalias(pt.Elem()).(*types.Named); ok && nt.Obj().Pkg() == hu.Pkg.Types {
+										if errT, ok := types.Universe.Lookup("error").Type().Underlying().(*types.Interface); ok && (types.Implements(nt, errT) || types.Implements(types.NewPointer(nt), errT)) {
+											targets["own:"+nt.Obj().Name()] = true
+										}
+									}
+								}
 							}
 						}
 					case *ast.AssignStmt:
@@ -161,7 +165,7 @@ func init() {
 				if strings.Contains(t, "encoding/json.SyntaxError") {
 					hasStd = true
 				}
-				if strings.HasSuffix(t, "libjson.syntaxError") {
+				if strings.HasPrefix(t, "own:") {
 					hasOwn = true
 				}
 			}
@@ -351,7 +355,38 @@ func init() {
 			if fn := entries["LSymbol"]; fn != nil {
 				fd := c.declOf[fn]
 				u := FuncUnit{fn, fd, c.pkgOf[fd]}
-				raw, guarded := rawWrite(fn)
+				raw, _ := rawWrite(fn)
+				// decided on the flow graph: assuming the symbol's text equals neither TrueSymbol nor
+				// FalseSymbol, no raw write is reachable (an if-chain or a switch on the text alike)
+				guarded := false
+				if raw {
+					sfc := c.cfgOf(u, nil)
+					sinfo := u.Pkg.TypesInfo
+					isTF := func(e ast.Expr) bool {
+						o := identObjOrSel(sinfo, e)
+						return o != nil && (o.Name() == "TrueSymbol" || o.Name() == "FalseSymbol")
+					}
+					reach := sfc.reachableUnder(func(e ast.Expr) int {
+						be, ok := ast.Unparen(e).(*ast.BinaryExpr)
+						if !ok || (be.Op != token.EQL && be.Op != token.NEQ) || !(isTF(be.X) || isTF(be.Y)) {
+							return -1
+						}
+						if be.Op == token.EQL {
+							return 0
+						}
+						return 1
+					})
+					guarded = true
+					for b := range reach {
+						for _, n := range b.Nodes {
+							for _, ce := range callsIn(n, false) {
+								if se, ok := ast.Unparen(ce.Fun).(*ast.SelectorExpr); ok && (se.Sel.Name == "WriteString" || se.Sel.Name == "Write") {
+									guarded = false
+								}
+							}
+						}
+					}
+				}
 				if !raw || guarded {
 					obs = append(obs, mkOb(c, "JSON.encoder-table", u, "bare symbols only for true/false", fd, Proved, "raw text is written only under a comparison with TrueSymbol/FalseSymbol", true))
 				} else {
@@ -390,12 +425,14 @@ func init() {
 			// float renderer
 			ajf := c.LookupPkgFunc(jsonPkg + ".appendJSONFloat")
 			if ajf != nil {
-				sites, _ := c.CallsTo(func(p string) bool { return rel(p) == jsonPkg }, ajf)
+				// reached (directly or through helpers of the package) from the loader's canonical-text
+				// comparison and from the encoder's float case
+				reach := c.staticReach(func(p string) bool { return rel(p) == jsonPkg }, ajf)
 				users := map[string]bool{}
-				for _, s := range sites {
-					users[s.Unit.Name()] = true
+				for f := range reach {
+					users[FuncName(f)] = true
 				}
-				if users[jsonPkg+".loadNumber"] && users[jsonPkg+".(*encoder).scratchFloat"] {
+				if users[jsonPkg+".loadNumber"] && users[jsonPkg+".(*encoder).encodeFloat"] {
 					obs = append(obs, Obligation{Rule: "JSON.encoder-table", Func: jsonPkg + ".appendJSONFloat", Construct: "single float renderer", Verdict: Proved,
 						Detail: "used by the encoder (scratchFloat) and by loadNumber's canonical-text comparison", Nontrivial: true})
 				} else {
